@@ -57,6 +57,48 @@ CHECKS = {
         "Tied to the code by an ENUMERATED re-checksummed grid (~580 cases): an independent writer emits sets whose declared fields are overridden BEFORE ids, set id and packet hashes are computed - slice size and recovery count at boundary values up to 2^64-1 (with and without consistent checksum lists), unsorted/duplicate/unknown ids, truncated main body, file lengths at boundaries and slice multiples, wrong hashes, hostile names, checksum lists too short/long, exponents 0..65536/2^31/2^32-1, wrong block sizes, duplicate/wrong recovery data, recovery packet in the index, removal/duplication of every packet type (thorough: pairs) x four data states; no crash, bounded allocation (bytes allocated measured per case), nothing but protected content written; impl = model. Five crashes of the pinned tree were fixed; the coder sized by the highest exponent is a recorded known finding.",
    technique="Rocq proof: hash-guarded writes for all states; enumerated re-checksummed field-boundary grid with allocation measurement as correspondence check",
    design="6/C19", note=NOTE + "Exponents above 4000 and accepted slice sizes above 64 KiB run on the implementation only (the extracted model's list-based tables make them too slow)."),
+ "C04": dict(
+   cat="proof",
+   text="Theorems (Props/C04.v, closed): the PAR1 Reed-Solomon code of the model (GF(2^8) mod 0x11D, klauspost/reedsolomon's PAR1 matrix and Reconstruct semantics) reconstructs EXACTLY the original files and volumes from every surviving subset for every file count, volume count and content, the only failures being too-few-shards (exactly when fewer than d of the d+p shards survive) and the PAR1 matrix's singular combinations - never a panic; for every archive state, Verify counting no unusable file implies every saved file is present with its recorded hashes, Verify is pure, Repair writes only data of the entry's length matching both hashes to Dir(index)/name and lists exactly those. The composition over the I/O layer is covered by the correspondence check. "
+        "Tied to the code: for sets up to 4+3 EVERY subset of lost (deleted/flipped/truncated/appended) data files x lost volumes, sampled subsets for sets up to 12 files / 99 volumes with Unicode names and >16 KiB files, Verify with full parity check, Repair with/without double-check, part on real directories; counts = truth, untouched set clean, repair restores within capacity. Two panics of the pinned tree (no volume left; short parity data) were fixed.",
+   technique="Rocq proof: GF(2^8) field laws by exhaustive sweeps + Gauss-Jordan inverse correctness (C11's generic development) => reconstruction exactness; exhaustive-subset differential correspondence check",
+   design="6/C04", note=NOTE + "klauspost/reedsolomon is modelled (matrix, choice of the first d valid shards, error conditions), not verified."),
+ "C10": dict(
+   cat="proof",
+   text="Theorems (Props/C10.v, closed; md5 length as premise): parity volume v, byte k = sum over files i (from 1) of i^(v-1)*file_i[k] in GF(2^8) mod 0x11D (field laws proved exhaustively); every volume the writer model emits - any set hash, volume number, entries with any status bits (saved or not), any trailing comment/data - is read back field for field by the reader model with the set hash over the SAVED entries only; UTF-16 surrogate example. "
+        "Tied to the code in both directions: (writer) every file gopar's Create writes is judged by an independent Python validator from the PAR 1.0 text (layout, offsets, sizes, control/set/file/16k hashes, UTF-16LE names incl. surrogate pairs, parity formula) and equals the model's bytes; (reader) sets from an independent writer with ASCII/UTF-16/binary comments and non-saved entries at sampled placements (their files present, absent or different), damage within and beyond capacity: counts concern the saved entries, Repair restores them and touches nothing else. The pinned tree failed the reader direction (wrong entry used with non-saved entries): fixed.",
+   technique="Rocq proof: format round trip + parity formula over GF(2^8); independent writer/validator correspondence check in both directions",
+   design="6/C04+C10", note=NOTE),
+ "C14": dict(
+   cat="proof",
+   text="Theorems (Props/C14.v, closed): over ANY finite history of external modifications, Verify and Repair operations (PAR2 and PAR1): Verify is the identity on states; every Repair step leaves each path as it was or writes content that matches the archive's recorded length and hashes; hence by induction over the history a path not touched externally either keeps its initial content or holds archive-matching content (damage never grows). NOT proved: that a successful Repair leaves Verify clean and a further Repair idle (needs 'intact => all slices found at home', the converse of C03a); that half is decided by the closure exploration. "
+        "Tied to the code by exploring the reachable state graph TO CLOSURE: the event alphabet (each file original/absent/flipped/prepended/cut/other file's content; each recovery file present or not) spans a finite space (PAR2 144 states, PAR1 256): every state is visited, Verify, Repair and Repair+double-check are run on implementation and model, successors are looked up in the same table: no damage growth, success => originals => clean Verify => idle Repair, convergence once recovery files return.",
+   technique="Rocq proof: one-step monotonicity lifted by induction over histories; exhaustive closure of the finite state graph as correspondence check",
+   design="6/C14", note=NOTE),
+ "C15": dict(
+   cat="proof",
+   text="Theorems (Props/C15.v, closed): for the model of Go's path.Clean/IsAbs and filepath.Join/Dir as gopar calls them, EVERY name accepted by checkFilename - any spelling - cleans to a non-empty list of ordinary components (no '..', no '.', no empty component), and joined below ANY directory (rooted or not, itself containing '..' or not) leaves the directory's components untouched: the path read or written is strictly inside the index file's directory tree; rejected spellings shown. PAR1's guard (Base(name) = name) and Create's containment check are covered by the correspondence check. "
+        "Tied to the code: the path model vs Go's functions and gopar's checkFilename on EVERY string over {a . /} up to length 7 (21 000 cases) plus unicode/NUL/backslash; fully repairable PAR2 and PAR1 archives by independent writers whose declared names come from a 28-spelling traversal corpus at every position, declared files missing, on a real directory seven levels deep with canaries at every level: nothing outside is created or modified; Create refuses outside inputs.",
+   technique="Rocq proof: stack-machine characterisation of Clean + no-underflow lemma for accepted names; exhaustive small-alphabet path correspondence + canary-tree end-to-end check",
+   design="6/C15", note=NOTE + "Lexical only, as the code is: symlinks and case-insensitive file systems are not modelled."),
+ "C17": dict(
+   cat="proof",
+   text="Theorems (Props/C17.v, closed): the PAR2 Create model's output files are the same for every permutation of the input list (distinct file ids); the model has no goroutine parameter or hidden state and uses the current directory only to resolve spellings to absolute paths (spelling classes shown). Goroutine independence of the coding itself is C12. "
+        "Tied to the code: library Create under ALL permutations of 3-4 inputs (sampled for 6), goroutines 1/2/7/32, repetition, real directory; the par binary from current directory {set, parent, unrelated} x spelling {relative, absolute, ./x, doubled separators, a/../a/x, /abs/./x} for PAR2 and PAR1: every variant byte-identical to the reference run and to the model.",
+   technique="Rocq proof: uniqueness of the sorted recovery set + lookup-by-id congruence (order independence); permutation/cwd/spelling-exhaustive correspondence check",
+   design="6/C17", note=NOTE),
+ "C18": dict(
+   cat="proof",
+   text="Theorems (Props/C18.v, closed): on the model with a fault schedule indexed by I/O call number: an operation (Create, Verify, Repair) that returns success was hit by no scheduled fault (a missing file is a read result, not a fault); whatever the faults, a run changes only paths it issued write calls for; a path is listed as repaired only if its write completed; Verify leaves the state unchanged under any faults, so its rerun is the fault-free run. The rerun clause for Repair is not a theorem: it fails for in-place rewriting (recorded known finding) and is decided by the check. "
+        "Tied to the code by FAULT ENUMERATION: for PAR2 and PAR1, Create/Verify/Repair on six archive states: the fault-free I/O trace is recorded, then a fault is injected at EVERY call index (every read, the listing, every write): error without effect, and for writes also after 0/1/7 bytes or all data; then cleared and rerun (~1100 faulted runs + reruns per run; thorough: pairs); error reported, nothing else altered, repaired list = completed writes, rerun = fault-free result; impl = model on every faulted run and rerun.",
+   technique="Rocq proof: fault-propagation and write-footprint invariants over the I/O-trace model; exhaustive single-fault injection at every I/O call index as correspondence check",
+   design="6/C18", note=NOTE + "OS write atomicity is modelled as the two fault kinds the property names (no effect / torn prefix)."),
+ "C20": dict(
+   cat="proof",
+   text="Theorems (Props/C20.v, closed): for the model of cmd/par/main.go: the verify mapping (needed&possible -> 1, needed&impossible -> 2, else 0), the repair mapping for PAR1 and PAR2 alike (0 iff the library succeeded, 2 for not-enough-parity, non-zero otherwise), usage errors -> 3. 'exit 0 => the operation fully succeeded' then follows from the library theorems (C03a for verify, C01/C02 for repair) - composed by the check, not as one theorem. "
+        "Tied to the code: the real par binary built from the tree, ~420 runs in scratch directories: {PAR1,PAR2} x {v,verify,r,repair,upper-case,-doublecheck,-a,-g} x state {intact, repairable, unrepairable, damaged/intact without recovery files, damaged index, missing index, swapped} x cwd {set, parent, unrelated} x {absolute, relative}; create incl. bad slice size/unknown extension/missing input; 22 usage-error lines; exit status and directory tree vs cli_run; any panic text fails. The pinned tree exited 7 instead of 2 for unrepairable PAR1 sets: fixed.",
+   technique="Rocq model of flag parsing/dispatch/status mapping with mapping theorems; binary-level state x invocation grid as correspondence check",
+   design="6/C20", note=NOTE + "Integer flags are modelled for decimal spellings only."),
  "C07": dict(
    cat="proof",
    text="Theorems (Props/C07.v, closed): for the model of rsec16 (Cauchy and PAR2-Vandermonde parity matrices, GenerateParity, ReconstructData with the lowest-numbered available parity rows, augmented-matrix row reduction from C11) and ANY well-formed parity matrix, any data, any erasure masks: the result is the original data, or not-enough-parity, or singular - never a panic and never success with different data; not-enough-parity exactly when available parity < missing data; nothing missing => Ok without touching parity; both constructors yield well-formed matrices within the documented limits. "
@@ -106,7 +148,7 @@ def main():
             "level_note": c["note"],
             "technique": c["technique"],
         })
-    na = [{"property_id": p, "reason": "check still under construction in this round; will be claimed when its model, theorems and correspondence check run clean"} for p in ALL if p not in CHECKS]
+    na = [{"property_id": p, "reason": "not claimed"} for p in ALL if p not in CHECKS]
     m = {
         "version": 1,
         "setup_cmd": "./setup.sh",
@@ -126,6 +168,6 @@ def main():
     }
     json.dump(m, open(os.path.join(HERE, "MANIFEST.json"), "w"), indent=1)
 
-HOOK_COMMITS = ['e2ca3fb', '4a4f2dc', 'ef2c561']
+HOOK_COMMITS = ['e2ca3fb', '4a4f2dc', 'ef2c561', '945c7ec']
 if __name__ == "__main__":
     main()
